@@ -139,6 +139,8 @@ def gen(rng, n, tier):
         c = gen_one(rng, tier)
         if c is None:
             continue
+        if any(F(v) == 0 for v in c.get("pop", [])) and rng.chance(0.15):
+            c["init"]["negzero"] = True
         yield c
         k += 1
     # additional streams (about n/4 cases):
@@ -204,6 +206,8 @@ def run_seq(init, seq, nm=None):
     whole sequence (which is what the model computes)."""
     nm = nm or NMG.make_nm(init)
     buf = np.array([float(v) for v in seq], dtype=float)
+    if init.get("negzero"):
+        buf[buf == 0] = -0.0        # zeros stored as IEEE negative zero: equal to 0, inside [0,u]
     m = float("inf")
     for k in range(1, len(buf) + 1):
         r = impl_call(lambda: nm.test(buf[:k]))
@@ -240,6 +244,8 @@ def impl(case):
         if isinstance(mins[i], str):
             continue
         buf = np.array([float(v) for v in r], dtype=float)
+        if case["init"].get("negzero"):
+            buf[buf == 0] = -0.0
         rr = impl_call(lambda: nm.test(buf))
         if isinstance(rr, dict):
             continue
